@@ -472,9 +472,11 @@ impl State {
         let normalised_self = self.normalise()?;
         let normalised_other = other.normalise()?;
 
+        // |<a|b>| of two normalised states is at most 1; rounding can push it slightly above, which would make acos return NaN
         Ok(normalised_self
             .inner_product(&normalised_other)?
             .norm()
+            .min(1.0)
             .acos())
     }
 
@@ -494,7 +496,8 @@ impl State {
         let normalised_self = self.normalise()?;
         let normalised_other = other.normalise()?;
 
-        Ok(normalised_self.inner_product(&normalised_other)?.norm_sqr())
+        // clamp to the mathematical range [0, 1] (rounding can give 1 + a few ulps)
+        Ok(normalised_self.inner_product(&normalised_other)?.norm_sqr().min(1.0))
     }
 
     // ***** MEASUREMENT FUNCTIONS *****
